@@ -241,13 +241,13 @@ package mq
 //@   requires 0 <= i
 //@   assigns data[i:i+(v == 0 ? 0 : 1)]
 //@   ensures result == (v == 0 ? 0 : 1)
-//@   ensures v != 0 && i + 1 <= len(data) ==> data[i] == byte(v)
+//@   ensures v != 0 && i + 1 <= len(data) ==> data[i] == byte(v)   #C02
 
 //@ func (bits).fillProp
 //@   requires 0 <= i
 //@   assigns data[i:i+(v == 0 ? 0 : 2)]
 //@   ensures result == (v == 0 ? 0 : 2)
-//@   ensures v != 0 && i + 2 <= len(data) ==> data[i] == byte(id) && data[i+1] == byte(v)
+//@   ensures v != 0 && i + 2 <= len(data) ==> data[i] == byte(id) && data[i+1] == byte(v)   #C02
 
 //@ func (Ident).fill
 //@   requires 0 <= i
